@@ -10,6 +10,13 @@ import struct
 from anysystem import Context, Message, Process
 
 
+def _delay(tok):
+    """a delay token: integer = half units, x<hex> = the bit pattern of the double"""
+    if tok.startswith("x"):
+        return struct.unpack(">d", bytes.fromhex(tok[1:]))[0]
+    return int(tok) * 0.5
+
+
 def trig_code(trig):
     kind = {"L": 0, "M": 1}.get(trig[0], 2)
     return kind * 1000 + int(trig[3:])
@@ -52,9 +59,9 @@ class ScriptProc(Process):
             elif parts[0] == "L":
                 ctx.send_local(self._mk(holder, parts[1], dat(parts[2])))
             elif parts[0] == "T":
-                ctx.set_timer(parts[1], int(parts[2]) * 0.5)
+                ctx.set_timer(parts[1], _delay(parts[2]))
             elif parts[0] == "O":
-                ctx.set_timer_once(parts[1], int(parts[2]) * 0.5)
+                ctx.set_timer_once(parts[1], _delay(parts[2]))
             elif parts[0] == "C":
                 ctx.cancel_timer(parts[1])
             elif parts[0] == "K":
